@@ -56,6 +56,36 @@ func Test_memoryStore_DeleteReference(t *testing.T) {
 	})
 }
 
+func Test_memoryStore_FindAndDeleteReference(t *testing.T) {
+	t.Run("ok", func(t *testing.T) {
+		store := createStore(t)
+		expected := Flow{
+			ID: "flow-id",
+		}
+		err := store.Store(context.Background(), expected)
+		assert.NoError(t, err)
+		err = store.StoreReference(context.Background(), expected.ID, refType, ref)
+		assert.NoError(t, err)
+
+		actual, err := store.FindAndDeleteReference(context.Background(), refType, ref)
+		assert.NoError(t, err)
+		assert.Equal(t, expected, *actual)
+
+		// Now it can't be found anymore
+		actual, err = store.FindAndDeleteReference(context.Background(), refType, ref)
+		assert.NoError(t, err)
+		assert.Nil(t, actual)
+	})
+	t.Run("unknown reference", func(t *testing.T) {
+		store := createStore(t)
+
+		actual, err := store.FindAndDeleteReference(context.Background(), refType, ref)
+
+		assert.NoError(t, err)
+		assert.Nil(t, actual)
+	})
+}
+
 func Test_memoryStore_FindByReference(t *testing.T) {
 	t.Run("reference already exists", func(t *testing.T) {
 		store := createStore(t)
